@@ -18,6 +18,7 @@ import (
 	"github.com/nspcc-dev/neo-go/pkg/config/limits"
 	"github.com/nspcc-dev/neo-go/pkg/core/block"
 	"github.com/nspcc-dev/neo-go/pkg/core/dao"
+	"github.com/nspcc-dev/neo-go/pkg/core/fee"
 	"github.com/nspcc-dev/neo-go/pkg/core/interop"
 	"github.com/nspcc-dev/neo-go/pkg/core/interop/contract"
 	"github.com/nspcc-dev/neo-go/pkg/core/mempool"
@@ -3204,6 +3205,20 @@ func (bc *Blockchain) IsTxStillRelevant(t *transaction.Transaction, txpool *memp
 	}
 	if recheckWitness {
 		return bc.verifyTxWitnesses(t, nil, isPartialTx) == nil
+	}
+	if !isPartialTx {
+		// Standard witnesses are not rechecked, but the new block can change
+		// fee policy (fee per byte, attribute prices, execution fee factor),
+		// so ensure that the network fee is still sufficient.
+		var (
+			needFee     = int64(t.Size())*bc.FeePerByte() + bc.CalculateAttributesFee(t)
+			baseExecFee = bc.GetBaseExecFee()
+		)
+		for i := range t.Scripts {
+			verificationFee, _ := fee.Calculate(baseExecFee, t.Scripts[i].VerificationScript)
+			needFee += verificationFee
+		}
+		return t.NetworkFee >= needFee
 	}
 	return true
 }
